@@ -82,6 +82,8 @@ func Restore(walletPath, mnemonic string, mintsToRestore []string) (uint64, erro
 			}
 
 			var counter uint32 = 0
+			// value of the counter saved in the db for this keyset
+			var savedCounter uint32 = 0
 
 			keysetKeys, err := GetKeysetKeys(mint, keyset.Id)
 			if err != nil {
@@ -218,9 +220,10 @@ func Restore(walletPath, mnemonic string, mintsToRestore []string) (uint64, erro
 				}
 
 				// save wallet keyset with latest counter moving forward for wallet
-				if err := db.IncrementKeysetCounter(keyset.Id, counter); err != nil {
+				if err := db.IncrementKeysetCounter(keyset.Id, counter-savedCounter); err != nil {
 					return 0, fmt.Errorf("error incrementing keyset counter: %v", err)
 				}
+				savedCounter = counter
 				emptyBatches = 0
 			}
 		}
